@@ -155,3 +155,36 @@ func TestC11WitnessResave(t *testing.T) {
 		Quick: 12, Thorough: 100, Gen: genC11Resave, Run: runC11,
 	}, "patch-expired-resaves-removed-record", "resurrected")
 }
+
+// --- reindex-duplicates-order-entry ---------------------------------------------
+
+func genC11ReindexDup(t *rapid.T) C11Scenario {
+	n := rapid.IntRange(3, 8).Draw(t, "n")
+	s := C11Scenario{Mem: rapid.Bool().Draw(t, "mem"), Recs: witnessRecs(t, n, "ready")}
+	victim := rapid.IntRange(0, n-1).Draw(t, "victim")
+	s.Claimers = []C11Claimer{{Kind: "pe", HowMany: 0, Ops: []POp{{Kind: "set-owner", S: "w0"}}}}
+	s.Mutators = []C11Mutator{
+		// slides the victim's expiry: SaveFunction removes it from the expiry index and adds it back
+		{Kind: "patch", Keys: []int{victim}, ExpSec: -rapid.IntRange(5000, 6000).Draw(t, "newexp"), DelayUs: 3000},
+		{Kind: "delete", Keys: []int{victim}, DelayUs: 400000},
+	}
+	s.Plan = []vsched.Action{
+		// PatchExpired has selected and patched all n records (n passages of beacon.Add through the
+		// write buffer); hold it before the re-index until the writer has started, plus a moment
+		{Site: "beacon:ReindexExpiration:1:atomic.StoreInt32", Hit: 1, Kind: "pause", Until: "site:swamp_patch:PatchFields:1:StartTreasureGuard", MaxWaitMs: 150},
+		{Site: "beacon:ReindexExpiration:2:Lock", Hit: 1, Kind: "sleep", SleepUs: 4000},
+		// the writer's SaveFunction has removed the victim from the expiry index; its Add (passage n+1)
+		// waits until PatchExpired has re-indexed (the DESC re-sort comes after the ASC re-index)
+		{Site: "beacon:Add:1:atomic.StoreInt32", Hit: n + 1, Kind: "pause", Until: "site:beacon:SortByExpirationTimeDesc:1:Lock", MaxWaitMs: 150},
+	}
+	return s
+}
+
+func TestC11WitnessReindexDup(t *testing.T) {
+	pbt.Witness(t, pbt.Spec[C11Scenario]{
+		ID: "C11", Facet: "witness-reindex-duplicates-order-entry",
+		Rule: "PatchExpired (no lease) has selected and patched 3–8 expired records; a PatchTreasures with Meta.SetExpiredAt on one of them is held between SaveFunction's expiry-index Delete and Add " +
+			"while PatchExpired re-indexes (ReindexExpiration appends to the order slice without touching the key map), then adds the key a second time; a later Delete removes one of the two entries",
+		Quick: 12, Thorough: 100, Gen: genC11ReindexDup, Run: runC11,
+	}, "reindex-duplicates-order-entry", "resurrected")
+}
